@@ -2,6 +2,7 @@
 # ./build.sh [ID [TIER]] — (re)build the binaries a check needs from /repo's working tree.
 set -eu
 cd "$(dirname "$0")"
+export VERIF_DIR="$(pwd)"
 export GOFLAGS=-mod=mod GOPROXY=off GOSUMDB=off GOTOOLCHAIN=local
 ID="${1:-all}"; TIER="${2:-quick}"
 mkdir -p bin
